@@ -42,7 +42,7 @@ CONSTANTS
     NThreads,           \* threads 1 .. NThreads, each with its own db_session
     Fams,               \* names of the alphabets of executions <<query id, parameter>> (see ExecsOf below); a program
                         \* draws its executions from one of them
-    SessOps,            \* subset of {"ModIns", "ModUpd", "Flush", "Commit", "NewSession", "Rollback"}
+    SessOps,            \* subset of {"ModIns", "ModUpd", "ModM2M", "Flush", "Commit", "NewSession", "Rollback"} (see SessOpsOf)
     XUses,              \* kinds of cross-thread object use (strings), {} in history configurations
     WarmSet,            \* what the caches may have been warmed with before the threads start (subset of Execs + NoExec)
     MinLen, MaxLen,     \* length of each thread's program
@@ -78,7 +78,7 @@ Int(v) == [t |-> "int", v |-> v]
 Str(v) == [t |-> "str", v |-> v]
 NoneV  == [t |-> "none", v |-> "None"]
 
-OrmQueries == {"slice", "getattr", "cmp", "gt", "count", "strq"}
+OrmQueries == {"slice", "getattr", "cmp", "gt", "count", "strq", "m2m", "mcount", "maxdate", "sumdec", "dyn"}
 RawQueries == {"raw_where", "raw_pct", "raw_pct2"}
 (*  slice     select(x.name[:n] for x in T)               n baked into the translation
     getattr   select(getattr(x, a) for x in T)            a baked into the translation
@@ -86,10 +86,16 @@ RawQueries == {"raw_where", "raw_pct", "raw_pct2"}
     gt        select(x.name for x in T if x.n > p)
     count     select(x for x in T if x.n > p).count()     aggregate: answered through Query._aggregate
     strq      select("x.name for x in T if x.n > p")      query given as a string
+    m2m       select(x.name for x in T for g in x.groups if g.id >= p)          depends on a many-to-many link table
+    mcount    select(x for x in T for g in x.groups if g.id >= p).count()       aggregate over the link table
+    maxdate   select(x.d for x in T if x.n >= p).max()    aggregate whose value is converted (date)
+    sumdec    select(x.amount for x in T if x.n >= p).sum()                     aggregate whose value is converted (Decimal)
+    dyn       T.select(<lambda compiled at run time from a text that contains the value p>)   a new, short-lived code
+              object per execution: the value is part of the code, i.e. baked in
     raw_where db.select("name from T where n > $p")
     raw_pct   db.execute("select 7 % 4, $p")              raw_pct2: "select 7 %% 4, $p"  (= raw_pct with % doubled)   *)
-Baked(q)     == q \in {"slice", "getattr"}
-Aggregate(q) == q = "count"
+Baked(q)     == q \in {"slice", "getattr", "dyn"}
+Aggregate(q) == q \in {"count", "mcount", "maxdate", "sumdec"}
 SrcCache(q)  == IF q = "strq" THEN "s2a" ELSE "ast"
 Doubled(s)   == IF s = "raw_pct" THEN "raw_pct2" ELSE IF s = "raw_pct2" THEN "raw_pct4" ELSE s
 
@@ -99,18 +105,23 @@ FamSlice2 == {<<"slice", Int("1")>>, <<"slice", Int("2")>>}
 FamSlice3 == FamSlice2 \cup {<<"slice", Int("3")>>}
 FamBaked  == FamSlice2 \cup {<<"slice", NoneV>>, <<"getattr", Str("name")>>, <<"getattr", Str("tag")>>}
 FamTypes  == {<<"cmp", Int("1")>>, <<"cmp", NoneV>>, <<"cmp", Str("1")>>, <<"gt", Int("1")>>, <<"gt", Str("1")>>}
-FamAggr   == {<<"count", Int("0")>>, <<"count", Int("1")>>, <<"gt", Int("0")>>, <<"gt", Int("1")>>}
+FamAggr   == {<<"count", Int("0")>>, <<"count", Int("1")>>, <<"gt", Int("0")>>, <<"gt", Int("1")>>, <<"maxdate", Int("0")>>,
+              <<"sumdec", Int("0")>>}
+FamM2M    == {<<"m2m", Int("1")>>, <<"m2m", Int("2")>>, <<"mcount", Int("1")>>, <<"maxdate", Int("0")>>}
+FamDyn    == {<<"dyn", Int("0")>>, <<"dyn", Int("1")>>, <<"dyn", Int("2")>>}
 FamStr    == {<<"strq", Int("0")>>, <<"strq", Int("1")>>, <<"raw_where", Int("0")>>, <<"raw_where", Int("1")>>, <<"raw_where", Str("1")>>}
 FamRaw    == {<<"raw_pct", Int("1")>>, <<"raw_pct2", Int("1")>>, <<"raw_pct", Str("1")>>, <<"raw_where", Int("1")>>, <<"raw_where", NoneV>>}
 FamMixT   == FamSlice2 \cup {<<"getattr", Str("name")>>, <<"getattr", Str("tag")>>, <<"strq", Int("0")>>, <<"raw_where", Int("0")>>}
 \* the smaller alphabets of the quick tier
 FamQB == {<<"slice", Int("1")>>, <<"slice", Int("2")>>, <<"getattr", Str("tag")>>}
 FamQT == {<<"cmp", Int("1")>>, <<"cmp", NoneV>>, <<"cmp", Str("1")>>}
-FamQA == {<<"count", Int("0")>>, <<"count", Int("1")>>, <<"gt", Int("0")>>}
+FamQA == {<<"count", Int("0")>>, <<"sumdec", Int("0")>>, <<"gt", Int("0")>>}
+FamQM == {<<"m2m", Int("1")>>, <<"mcount", Int("1")>>, <<"maxdate", Int("0")>>}
+FamQD == {<<"dyn", Int("0")>>, <<"dyn", Int("1")>>}
 FamQS == {<<"strq", Int("0")>>, <<"strq", Int("1")>>, <<"raw_where", Int("1")>>}
 FamQR == {<<"raw_pct", Int("1")>>, <<"raw_pct2", Int("1")>>, <<"raw_where", Int("1")>>, <<"raw_where", NoneV>>}
 
-ExecsOf(f) == CASE f = "QB" -> FamQB [] f = "QT" -> FamQT [] f = "QA" -> FamQA [] f = "QS" -> FamQS [] f = "QR" -> FamQR
+ExecsOf(f) == CASE f = "QM" -> FamQM [] f = "QD" -> FamQD [] f = "M2M" -> FamM2M [] f = "Dyn" -> FamDyn [] f = "QB" -> FamQB [] f = "QT" -> FamQT [] f = "QA" -> FamQA [] f = "QS" -> FamQS [] f = "QR" -> FamQR
                 []  f = "Slice2" -> FamSlice2 [] f = "Slice3" -> FamSlice3 [] f = "Baked" -> FamBaked [] f = "Types" -> FamTypes
                 [] f = "Aggr" -> FamAggr [] f = "Str" -> FamStr [] f = "Raw" -> FamRaw [] f = "MixT" -> FamMixT
 Execs == UNION {ExecsOf(f) : f \in Fams}
@@ -126,7 +137,11 @@ OpAlphabet(A, S) == {Op("exec", e[1], e[2]) : e \in A} \cup {Op("sess", k, NoneV
 
 Count(s, P(_)) == Cardinality({i \in DOMAIN s : P(s[i])})
 IsExec(o) == o.op = "exec"
-IsMod(o)  == o.op = "sess" /\ o.q \in {"ModIns", "ModUpd"}
+Mods == {"ModIns", "ModUpd", "ModM2M"}      \* ModM2M changes nothing but a many-to-many collection (no object to save)
+IsMod(o)  == o.op = "sess" /\ o.q \in Mods
+\* kinds of cross-thread use made from a db_session that has not touched the database yet (no session cache exists)
+FreshUses == {"load_set_fresh", "iter_set_fresh", "load_attr_fresh", "lazy_attr_fresh", "delete_fresh"}
+FreshProg(s) == s[1].op = "xuse" /\ s[1].q \in FreshUses
 IsXUse(o) == o.op = "xuse"
 
 (* A program: ends with an observable operation (a trailing session operation has no observable effect), uses an
@@ -135,10 +150,15 @@ ProgramsOver(A, S) ==
             { s \in UNION {[1 .. n -> OpAlphabet(A, S)] : n \in MinLen .. MaxLen} :
                 /\ s[Len(s)].op \in {"exec", "xuse"}
                 /\ \A i \in 1 .. Len(s) - 1 : ~IsXUse(s[i])
+                /\ (s[Len(s)].op = "xuse" /\ s[Len(s)].q \in FreshUses) => Len(s) = 1
                 /\ Count(s, IsExec) <= MaxExec
                 /\ Count(s, IsMod) <= MaxMod }
 \* the raw-statement families are replayed at the level of adapt_sql on providers without a database: no session operations
-Programs == UNION {ProgramsOver(ExecsOf(f), IF f \in {"Raw", "QR"} THEN {} ELSE SessOps) : f \in Fams}
+\* the many-to-many families modify only a many-to-many collection; the others only objects
+SessOpsOf(f) == IF f \in {"Raw", "QR"} THEN {}
+                ELSE IF f \in {"QM", "M2M"} THEN (SessOps \ {"ModIns", "ModUpd"}) \cup {"ModM2M"}
+                ELSE SessOps \ {"ModM2M"}
+Programs == UNION {ProgramsOver(ExecsOf(f), SessOpsOf(f)) : f \in Fams}
 \* programs of raw statements only can be run on every provider (paramstyle); everything else runs on SQLite (qmark)
 MockProg(s) == \A i \in DOMAIN s : s[i].op = "exec" /\ s[i].q \in RawQueries
 
@@ -353,10 +373,10 @@ Sess(t) ==
     /\ NThreads = 1
     /\ Mark(t, "sess", Cur(t).q)
     /\ LET k == Cur(t).q IN
-       /\ view' = [view EXCEPT ![t] = IF k \in {"ModIns", "ModUpd"} THEN Append(@, k)
+       /\ view' = [view EXCEPT ![t] = IF k \in Mods THEN Append(@, k)
                                        ELSE IF k = "Rollback" THEN committed ELSE @]
-       /\ pending' = [pending EXCEPT ![t] = IF k \in {"ModIns", "ModUpd"} THEN TRUE ELSE FALSE]
-       /\ results' = [results EXCEPT ![t] = IF k \in {"ModIns", "ModUpd"} THEN @
+       /\ pending' = [pending EXCEPT ![t] = IF k \in Mods THEN TRUE ELSE FALSE]
+       /\ results' = [results EXCEPT ![t] = IF k \in Mods THEN @
                                              ELSE IF k = "Flush" THEN Flushed(@, pending[t]) ELSE Empty]
        /\ committed' = IF k \in {"Commit", "NewSession"} THEN view[t] ELSE committed
     /\ Done(t, ErrR("-"), ErrR("-"))
@@ -366,13 +386,16 @@ Sess(t) ==
    thread-local (local.db2cache): the session t finds for itself is never the one the object belongs to, so the
    checks in Attribute.validate / Set.load / Entity._load_ must raise TransactionError.  When no other session is
    open any more the operation is skipped. *)
-Open(u) == pc[u] # "done"
+\* a thread whose session is open and has loaded objects (a fresh session owns nothing another thread could use)
+Open(u) == pc[u] # "done" /\ ~FreshProg(prog[u])
 XUse(t) ==
     /\ pc[t] = "xuse"
     /\ Mark(t, "xuse", Cur(t).q)
     /\ IF \E u \in Threads \ {t} : Open(u)
        THEN LET u == CHOOSE v \in Threads \ {t} : Open(v) /\ \A w \in Threads \ {t} : Open(w) => v <= w
-                sessionOfT == t   sessionOfObject == u
+                \* database._get_cache() yields the thread's own session cache, creating it when there is none yet
+                sessionOfT == IF Cur(t).q \in FreshUses THEN <<"created by the check", t>> ELSE <<"live", t>>
+                sessionOfObject == <<"live", u>>
             IN Dies(t, ErrR("TransactionError"), IF sessionOfT # sessionOfObject THEN ErrR("TransactionError") ELSE ErrR("none"))
        ELSE Dies(t, ErrR("skipped"), ErrR("skipped"))
     /\ UNCHANGED <<prog, warm, style, memo, tcache, sqlcache, adaptcache, committed, view, pending, results, src, tr, err>>
